@@ -69,6 +69,15 @@ def comp : Component where
       -- the read loop is inside getConn (holding connLock), past the admission check, about to count the connection
       let s' := stepOp st.backlog st.s .arriveBegin
       ({ st with s := s' }, line4 (sysStr s') "-" "*" (if s'.arrPending then "arrival-begins " else "arrival-refused "))
+    | ["are", t] =>
+      -- several Accept callers were blocked: the harness reports which one Go served (the one waiting longest)
+      let s' := stepOp st.backlog st.s (.arriveEndTo (nat! t))
+      ({ st with s := s' }, line4 (sysStr s') "-" "*" ("arrival-ends arrival-creates arrival-to-waiting-acceptor " ++
+        (if (st.s.ths.filter (fun x => x.pc == .parkedSelect)).length > 1 then "several-acceptors-waiting " else "")))
+    | ["arr", t] =>
+      let s' := stepOp st.backlog st.s (.arriveTo (nat! t))
+      ({ st with s := s' }, line4 (sysStr s') "-" "*" ("arrival-creates arrival-to-waiting-acceptor " ++
+        (if (st.s.ths.filter (fun x => x.pc == .parkedSelect)).length > 1 then "several-acceptors-waiting " else "")))
     | ["are"] =>
       let s' := stepOp st.backlog st.s .arriveEnd
       ({ st with s := s' }, line4 (sysStr s') "-" "*" ("arrival-ends " ++ (if s'.nextConn > st.s.nextConn then "arrival-creates " else "arrival-discarded ") ++
